@@ -26,9 +26,9 @@ CLAIMED = {
     technique="TLA+ parametric scheme checked for all pairs at reduced width by TLC; TLC validation of recorded full-width vectors"),
  "C13": dict(
     category="model_checking",
-    text="TLC checks the BufferPool specification (buffer_pool_manager.go, one action per critical section, victim choice abstracted) exhaustively for 1 and 2 frames x 3 page ids x 3 versions (thorough: 3 frames depth-bounded) for Coherent, PinSafe, FreshId, ReplacerPinFree, MappedRight, NonResidentOnDisk; the operation labels of every edge of a depth-bounded state graph are performed on a real BufferPoolManager, and random operation sequences run at pool sizes 1,2,3,4,8; TLC judges every recorded step on the recorded projection of the real pool (frames, page table, free list, replacer, reusable ids, disk) plus ghosts (latest version, live ids), and checks that the step is one the mechanism spec allows. Concurrent users: goroutines sharing a pool of (users + 1..3) frames allocate, fetch, stamp, re-read while pinned, flush, unpin and deallocate pages of their own; the merged history (one shared atomic counter) is judged by TLC (BufferPoolHistoryTrace: stale / moved / fresh / lost).",
-    design_ref="DESIGN.md section 5 C13",
-    note="Trusted: TLC, the driver (harness/cmd/vdrive/bpm.go), guarded VerifSnapshot accessor. Users follow the pool's contract. Sequential driver; replacement policy abstracted.",
+    text="TLC checks the BufferPool specification (buffer_pool_manager.go, one action per critical section, victim choice abstracted) exhaustively for 1 and 2 frames x 3 page ids x 3 versions (thorough: 3 frames depth-bounded) for Coherent, PinSafe, FreshId, ReplacerPinFree, MappedRight, NonResidentOnDisk; the operation labels of every edge of a depth-bounded state graph are performed on a real BufferPoolManager, and random operation sequences run at pool sizes 1,2,3,4,8; TLC judges every recorded step on the recorded projection of the real pool (frames, page table, free list, replacer, reusable ids, disk) plus ghosts (latest version, live ids), and checks that the step is one the mechanism spec allows. Concurrent users: goroutines sharing a pool of (users + 1..3) frames allocate, fetch, stamp, re-read while pinned, flush, unpin and deallocate pages of their own; the merged history (one shared atomic counter) is judged by TLC (BufferPoolHistoryTrace: stale / moved / fresh / lost). The replacement policy itself is spec/ClockReplacer (clock_replacer.go, circular_list.go as coded: circular list, reference bits, the hand as an alias of the list head or the frozen next field of a removed node), model-checked with 4 and 6 frames (a pinned frame is never a victim, none twice, the hand always denotes a list node, Victim answers whenever there is a candidate); every edge of its 4-frame state graph is performed on a real ClockReplacer and random calls run with 4 and 16 frames, answers and sizes judged by TLC (ClockReplacerTrace; a candidate other than the spec's choice is a counted policy deviation, not a violation).",
+    design_ref="DESIGN.md sections 0.1, 0.7 and 5 C13",
+    note="Trusted: TLC, the driver (harness/cmd/vdrive/bpm.go), guarded VerifSnapshot accessor. Users follow the pool's contract. Sequential driver for the mechanism walks; replacement policy abstracted in BufferPool, concrete in ClockReplacer.",
     technique="TLA+ spec + TLC exhaustive check; graph-guided and random operation sequences on the real pool validated by TLC (state projection + invariants + step conformance)"),
  "C06": dict(
     category="model_checking",
@@ -74,7 +74,7 @@ CLAIMED = {
     technique="TLA+ trace validation: pin-set balance evaluated by TLC on every recorded statement of the SQL workloads"),
  "C17": dict(
     category="model_checking",
-    text="Multimap (set of (key, row id) entries with Point / Range answers) is the oracle. The index objects of real tables (skip list, unique skip list, B-tree, hash; int / float / varchar keys incl. extremes, denormals, empty and 380-byte strings, hot duplicate keys, adjacent keys) are driven through the index.Index interface with insert-heavy then delete-heavy phases and key-changing updates; every 50 operations a battery of point lookups and full / bounded / half-open ordered scans; TLC validates every answer against Multimap. Concurrent clause: windows of 4 goroutines inserting / deleting / looking up on one shared index while ordered scans run, over never-touched sentinel entries; TLC decides with silent linearization steps whether each recorded history is explainable (atomic point operations; scans ordered, duplicate-free, containing everything present throughout and nothing never present). Mechanism level: spec/SkipList (L1: FindNode latch coupling and go-backward case, validateNoChangeAndGetLock, split, node removal, iterator, update counters, page ids handed out again; one action per latch acquisition) is model-checked for 2-3 threads with lookups / removals / scans judged against the abstract map at their linearization steps, each of six defect switches must produce a counterexample; it is bound to the code by SkipListTrace (the node structure - entries, levels, forward entries, counters - read back from the real pages after every call of random sequential sequences equals the specification's state) and by replaying the model's counterexample schedules on the real list through a gate hook (judged as call histories). spec/HashTable (L1: linear probing with wrap-around, tombstones) is model-checked for the multimap contract under the caller's obligation and bound to the code by comparing the slots of a real two-block table after every call.",
+    text="Multimap (set of (key, row id) entries with Point / Range answers) is the oracle. The index objects of real tables (skip list, unique skip list, B-tree, hash; int / float / varchar keys incl. extremes, denormals, empty and 380-byte strings, hot duplicate keys, adjacent keys) are driven through the index.Index interface (row ids with page ids around the byte boundaries of the packed form: 255, 32767, 33023, 65535, 2^20, 2^24, 2^31-2) with insert-heavy then delete-heavy phases and key-changing updates; every 50 operations a battery of point lookups and full / bounded / half-open ordered scans; TLC validates every answer against Multimap. Concurrent clause: windows of 4 goroutines inserting / deleting / looking up on one shared index while ordered scans run, over never-touched sentinel entries; TLC decides with silent linearization steps whether each recorded history is explainable (atomic point operations; scans ordered, duplicate-free, containing everything present throughout and nothing never present). Mechanism level: spec/SkipList (L1: FindNode latch coupling and go-backward case, validateNoChangeAndGetLock, split, node removal, iterator, update counters, page ids handed out again; one action per latch acquisition) is model-checked for 2-3 threads with lookups / removals / scans judged against the abstract map at their linearization steps, each of six defect switches must produce a counterexample; it is bound to the code by SkipListTrace (the node structure - entries, levels, forward entries, counters - read back from the real pages after every call of random sequential sequences equals the specification's state) and by replaying the model's counterexample schedules on the real list through a gate hook (judged as call histories). spec/HashTable (L1: linear probing with wrap-around, tombstones) is model-checked for the multimap contract under the caller's obligation and bound to the code by comparing the slots of a real two-block table after every call, every second sequence under memory pressure (pages made clean before a call, every unpinned page pushed out of the pool after it).",
     design_ref="DESIGN.md sections 0.4, 0.7 and 5 C17",
     note="Trusted: TLC, recording drivers. Concurrency is sampled (seeds x GOMAXPROCS), windows of 160 calls, plus two replayed schedules; hash and unique kinds only sequentially. SkipList model: 4-5 keys, node capacity 3, 2 levels, <= 4 nodes; its latch protocol is not bound by latch-level traces. Open known findings: unique skip list over integer keys, B-tree ffff stopper.",
     technique="TLA+ contract spec as oracle + TLA+ mechanism spec of the skip list; TLC model checking with defect switches, TLC trace validation of recorded operation sequences and of the real node structure, TLC linearizability check of concurrent histories and of replayed counterexample schedules"),
